@@ -125,18 +125,18 @@ func Intersection(input ...*Dimension) []Key {
 	dims := []*sortableDim{}
 
 	for _, v := range input {
-		// kinda ugly imo
-		v.m.RLock()
-		defer v.m.RUnlock()
-
-		if len(v.keys) == 0 {
+		// work on snapshots: holding the read locks of several dimensions at
+		// once (in the caller's arbitrary order) can deadlock with two writers
+		// waiting on them, because a pending writer blocks new readers
+		keys := v.copyKeys()
+		if len(keys) == 0 {
 			return []Key{}
 		}
 
 		dims = append(dims, &sortableDim{
-			keys: v.keys,
+			keys: keys,
 			i:    0,
-			l:    len(v.keys),
+			l:    len(keys),
 		})
 	}
 
